@@ -56,9 +56,12 @@ def gen_history(rng: random.Random, nworkers: int, configs, hist_id: str):
         elif k < 0.39:
             ops.append({"op": "reorder", "w": w, "src": rng.choice(hs),
                         "hid": new_h(w)})
-        elif k < 0.44:
+        elif k < 0.42:
             ops.append({"op": "api_roundtrip", "w": w, "src": rng.choice(hs),
                         "hid": new_h(w)})
+        elif k < 0.45:
+            ops.append({"op": "relayout", "w": w, "src": rng.choice(hs),
+                        "hid": new_h(w), "seed": rng.randrange(10 ** 6)})
         elif k < 0.49:
             ops.append({"op": "sub", "w": w, "src": rng.choice(hs),
                         "hid": new_h(w), "index": rng.randrange(1000)})
@@ -173,7 +176,8 @@ def run_history(fl: Fleet, hist, with_keys=True, stats=None, key_table=None):
                     "build_fresh", hid=op["hid"],
                     recipe=hist["recipes"][op["recipe"]])
                 live[w].add(op["hid"])
-            elif kind in ("mutate", "reorder", "api_roundtrip", "sub", "deepcopy"):
+            elif kind in ("mutate", "reorder", "api_roundtrip", "sub", "deepcopy",
+                          "relayout"):
                 if op["src"] not in live[w]:
                     continue
                 kwargs = {"hid_new": op["hid"], "hid": op["src"]}
@@ -181,6 +185,8 @@ def run_history(fl: Fleet, hist, with_keys=True, stats=None, key_table=None):
                     kwargs["mseed"] = op["mseed"]
                 if kind == "sub":
                     kwargs["index"] = op["index"]
+                if kind == "relayout":
+                    kwargs["seed"] = op["seed"]
                 r = wk.call(kind, **kwargs)
                 if kind == "mutate":
                     if r.get("sig") is None:
